@@ -30,8 +30,8 @@ RULE = (
     "(isotropic / diagonal, optionally lossy / magnetic; isotropic where a plane source cuts them), 1..2 sources "
     "(uniform plane, Gaussian plane, electric / magnetic dipole; CW / pulse / sampled profile; on/off switch), 1..2 "
     "detectors (field, energy, Poynting, phasor; switches), 10..30 steps, courant 0.5..0.99. Each case runs the "
-    "UniformGrid reference, the QuasiUniformGrid description and one of {explicit RectilinearGrid from 0, explicit "
-    "centred RectilinearGrid, UniformGrid with a partial_real_shape volume}. Non-trivial = the reference run ends with "
+    "UniformGrid reference, one of {QuasiUniformGrid (2/3), UniformGrid with a partial_real_shape volume (1/3)} and "
+    "one of {explicit RectilinearGrid from 0, explicit centred RectilinearGrid}. Non-trivial = the reference run ends with "
     "non-zero fields (a source actually fired) so that the comparison is not 0 == 0; distinct = sha1 of the case."
 )
 ASSUMPTIONS = [
@@ -94,7 +94,7 @@ def case_strategy(draw, ctx):
     }
     if has_bloch:
         spec["bloch_phase"] = [draw(st.sampled_from([0.0, 0.7, 1.9, -2.4])) for _ in range(3)]
-    variants = ["quasi", draw(st.sampled_from(["rect0", "rectc", "rect0", "rectc", "realvol"]))]
+    variants = [draw(st.sampled_from(["quasi", "quasi", "realvol"])), draw(st.sampled_from(["rect0", "rectc"]))]
     return {"scene": spec, "variants": variants}
 
 
